@@ -131,6 +131,27 @@ def replay_model(contract: dict, model: dict):
     shown = {k: repr(view(v, ()))[:300] for k, v in inputs.items()}      # proxies: safe repr of the entry state
     r = run_contract(contract, inputs)
     r['inputs'] = shown
+    if r.get('outcome') == 'pass' and not contract.get('concrete_inputs'):
+        # the counter-model leaves dtypes opaque (only (in)equalities and kinds are constrained): try the other injective
+        # assignments of its dtype tokens onto the palette (same-kind pairs such as int64/int32 included); first real failure wins
+        import itertools, re
+        from .concrete import PALETTE
+        toks = sorted(set(re.findall(r'Dtype!val!\d+', repr(model))))
+        if 0 < len(toks) <= 3:
+            for n, perm in enumerate(itertools.permutations(PALETTE[:9], len(toks))):
+                if n > 520:
+                    break
+                dm2 = DtypeMap()
+                dm2.m = dict(zip(toks, perm))
+                try:
+                    cand = {k: build(decode(v), dm2) for k, v in model.items() if not k.startswith('__')}
+                    r2 = run_contract(contract, cand)
+                except Exception:
+                    continue
+                if r2.get('outcome') == 'fail' and r2.get('raised') not in ('AttributeError', 'TypeError'):
+                    r2['inputs'] = {k: repr(view(v, ()))[:300] for k, v in cand.items()}
+                    r2['note'] = 'dtype tokens of the counter-model re-assigned: ' + ', '.join(f'{t}={d}' for t, d in zip(toks, perm))
+                    return r2
     opaque = contract.get('calls') or any(str(s_) in ('elem', 'list[elem]') or 'elem' in str(s_) for s_ in contract.get('params', {}).values())
     if r.get('outcome') == 'fail' and r.get('raised') in ('AttributeError', 'TypeError') and opaque and not contract.get('concrete_inputs'):
         # opaque objects (stores, callables, labels) cannot be built generically: a harness-made object failing is not evidence about /repo
